@@ -120,7 +120,9 @@ def nbs_bct(x, y, thresh, k=1000, tail='both', paired=False, verbose=False, seed
         df = n - 1
         sample_ss = np.sum((A - B)**2) - np.sum(A - B)**2 / n
         unbiased_std = np.sqrt(sample_ss / (n - 1))
-        z = np.mean(A - B) / unbiased_std
+        with np.errstate(divide='ignore', invalid='ignore'):
+            # zero variance: +-inf (an effect) or nan, whatever the caller's np.seterr
+            z = np.mean(A - B) / unbiased_std
         t = z * np.sqrt(n)
         if tail == 'both':
             return np.abs(t)
